@@ -29,7 +29,10 @@ ASSUMPTIONS = [
 PROTOS = [("small-lamp", 1, 1, {}), ("small-lamp", 1, 1, {"always_on": 1}), ("inserter", 1, 1, {"direction": 4}),
           ("transport-belt", 1, 1, {"direction": 8}), ("steel-chest", 1, 1, {"bar": 3}), ("train-stop", 2, 2, {"station": "Depot"}),
           ("assembling-machine-1", 3, 3, {"recipe": "iron-gear-wheel"}), ("storage-tank", 3, 3, {}), ("pump", 1, 2, {}),
-          ("power-switch", 2, 2, {}), ("wooden-chest", 1, 1, {})]
+          ("power-switch", 2, 2, {}), ("wooden-chest", 1, 1, {}),
+          # poles the USER places (not the compiler's grid): they must survive --power-poles trimming
+          ("small-electric-pole", 1, 1, {}), ("medium-electric-pole", 1, 1, {}), ("big-electric-pole", 2, 2, {}),
+          ("substation", 2, 2, {})]
 F_ROT = "C09-rotated-non-square-entity-off-grid"
 
 
